@@ -2,8 +2,26 @@
   Property C01 — linear error propagation is exact and aligned by configuration number.
   Property theorems only.
 -/
+import Mathlib.Algebra.BigOperators.Group.List.Basic
+import Mathlib.Analysis.SpecialFunctions.Arcosh
+import Mathlib.Analysis.SpecialFunctions.Arsinh
+import Mathlib.Analysis.SpecialFunctions.Artanh
+import Mathlib.Analysis.SpecialFunctions.ExpDeriv
+import Mathlib.Analysis.SpecialFunctions.Log.Deriv
+import Mathlib.Analysis.SpecialFunctions.Pow.Deriv
+import Mathlib.Analysis.SpecialFunctions.Sqrt
+import Mathlib.Analysis.SpecialFunctions.Trigonometric.ArctanDeriv
+import Mathlib.Analysis.SpecialFunctions.Trigonometric.Deriv
+import Mathlib.Analysis.SpecialFunctions.Trigonometric.InverseDeriv
+import Mathlib.Tactic.Linarith
+import Mathlib.Tactic.Ring
 import PV.Gen.Grads
 import PV.Model.Ops
+import PV.Proofs.C01aDeriv
+import PV.Proofs.C01aLemmas
+import PV.Proofs.C01bLemmas
+import PV.Proofs.RealScalar
+import PV.Spec.Propagate
 
 namespace PV
 open Scalar
@@ -18,5 +36,395 @@ theorem c01_sites_complete :
            "rtruediv_obs", "rtruediv_num", "pow_obs", "pow_num", "rpow", "abs", "sqrt", "log", "exp", "sin", "cos",
            "tan", "arcsin", "arccos", "arctan", "sinh", "cosh", "tanh", "arcsinh", "arccosh", "arctanh", "cmul", "cmul_2"],
       (findSite n).isSome = true := by decide
+
+
+open Scalar
+
+/-- "the site's gradient list is the derivative of its lambda body on `dom`":
+    for every point of the domain and every argument position `i`, the function
+    `t ↦ func(x with x_i := t)` has derivative `grads[i](x)` at `x i`. -/
+def SiteOK (s : Site) (dom : (Nat → ℝ) → ℝ → Prop) : Prop :=
+  ∃ gs, s.gradTerms = some gs ∧ gs.length = s.nvars ∧
+    ∀ (x : Nat → ℝ) (y : ℝ), dom x y → ∀ i, i < s.nvars →
+      HasDerivAt (fun t => s.func.eval (Function.update x i t) y) ((gs.getD i (.num 0)).eval x y) (x i)
+
+open Gen.Grads
+
+open EvalR in
+/-- unfold one site and evaluate its terms at ℝ into plain Mathlib expressions -/
+macro "site_simp" "[" s:term "]" : tactic =>
+  `(tactic| simp (config := {decide := true}) only [$s:term, eval_var, eval_par, eval_num, eval_add,
+     eval_sub, eval_mul, eval_div, eval_neg, eval_pow, eval_sqrt, eval_log, eval_exp, eval_sin, eval_cos,
+     eval_tan, eval_sinh, eval_cosh, eval_tanh, eval_arcsin, eval_arccos, eval_arctan, eval_arcsinh,
+     eval_arccosh, eval_arctanh, eval_abs,
+     Function.update_self, Function.update_of_ne, ne_eq, not_false_eq_true,
+     List.getD_cons_zero, List.getD_cons_succ, List.getD_eq_getElem?_getD, List.getElem?_cons_zero,
+     List.getElem?_cons_succ, Option.getD_some, Int.cast_one, Int.cast_zero, Int.cast_ofNat])
+
+/-! ### the one-variable derivative facts, as plain Mathlib statements -/
+
+-- arithmetic with observable partners
+theorem c01_grad_add_obs : SiteOK add_obs (fun _ _ => True) := by
+  refine ⟨_, rfl, rfl, ?_⟩
+  intro x y _ i hi
+  obtain rfl | rfl := lt_two_cases hi rfl
+  · site_simp [add_obs]; exact DerivFacts.add_const _ _
+  · site_simp [add_obs]; exact DerivFacts.const_add _ _
+theorem c01_grad_sub_obs : SiteOK sub_obs (fun _ _ => True) := by
+  refine ⟨_, rfl, rfl, ?_⟩
+  intro x y _ i hi
+  obtain rfl | rfl := lt_two_cases hi rfl
+  · site_simp [sub_obs]; exact DerivFacts.sub_const _ _
+  · site_simp [sub_obs]; exact DerivFacts.const_sub _ _
+theorem c01_grad_mul_obs : SiteOK mul_obs (fun _ _ => True) := by
+  refine ⟨_, rfl, rfl, ?_⟩
+  intro x y _ i hi
+  obtain rfl | rfl := lt_two_cases hi rfl
+  · site_simp [mul_obs]; exact DerivFacts.mul_const _ _
+  · site_simp [mul_obs]; exact DerivFacts.const_mul _ _
+theorem c01_grad_truediv_obs : SiteOK truediv_obs (fun x _ => x 1 ≠ 0) := by
+  refine ⟨_, rfl, rfl, ?_⟩
+  intro x y h i hi
+  obtain rfl | rfl := lt_two_cases hi rfl
+  · site_simp [truediv_obs]; exact DerivFacts.div_const _ _
+  · site_simp [truediv_obs]; exact DerivFacts.const_div _ _ h
+theorem c01_grad_rtruediv_obs : SiteOK rtruediv_obs (fun x _ => x 1 ≠ 0) := by
+  refine ⟨_, rfl, rfl, ?_⟩
+  intro x y h i hi
+  obtain rfl | rfl := lt_two_cases hi rfl
+  · site_simp [rtruediv_obs]; exact DerivFacts.div_const _ _
+  · site_simp [rtruediv_obs]; exact DerivFacts.const_div _ _ h
+theorem c01_grad_pow_obs : SiteOK pow_obs (fun x _ => 0 < x 0) := by
+  refine ⟨_, rfl, rfl, ?_⟩
+  intro x y h i hi
+  obtain rfl | rfl := lt_two_cases hi rfl
+  · site_simp [pow_obs]; exact DerivFacts.rpow_const _ _ h
+  · site_simp [pow_obs]; exact DerivFacts.const_rpow _ _ h
+-- arithmetic with plain-number partners
+theorem c01_grad_add_num : SiteOK add_num (fun _ _ => True) := by
+  refine ⟨_, rfl, rfl, ?_⟩
+  intro x y _ i hi
+  obtain rfl := lt_one_eq hi rfl
+  site_simp [add_num]; exact DerivFacts.add_const _ _
+theorem c01_grad_sub_num : SiteOK sub_num (fun _ _ => True) := by
+  refine ⟨_, rfl, rfl, ?_⟩
+  intro x y _ i hi
+  obtain rfl := lt_one_eq hi rfl
+  site_simp [sub_num]; exact DerivFacts.sub_const _ _
+theorem c01_grad_mul_num : SiteOK mul_num (fun _ _ => True) := by
+  refine ⟨_, rfl, rfl, ?_⟩
+  intro x y _ i hi
+  obtain rfl := lt_one_eq hi rfl
+  site_simp [mul_num]; exact DerivFacts.mul_const _ _
+theorem c01_grad_truediv_num : SiteOK truediv_num (fun _ y => y ≠ 0) := by
+  refine ⟨_, rfl, rfl, ?_⟩
+  intro x y _ i hi
+  obtain rfl := lt_one_eq hi rfl
+  site_simp [truediv_num]; exact DerivFacts.div_const _ _
+theorem c01_grad_rtruediv_num : SiteOK rtruediv_num (fun x _ => x 0 ≠ 0) := by
+  refine ⟨_, rfl, rfl, ?_⟩
+  intro x y h i hi
+  obtain rfl := lt_one_eq hi rfl
+  site_simp [rtruediv_num]; exact DerivFacts.const_div _ _ h
+theorem c01_grad_pow_num : SiteOK pow_num (fun x _ => 0 < x 0) := by
+  refine ⟨_, rfl, rfl, ?_⟩
+  intro x y h i hi
+  obtain rfl := lt_one_eq hi rfl
+  site_simp [pow_num]; exact DerivFacts.rpow_const _ _ h
+theorem c01_grad_rpow : SiteOK rpow (fun _ y => 0 < y) := by
+  refine ⟨_, rfl, rfl, ?_⟩
+  intro x y h i hi
+  obtain rfl := lt_one_eq hi rfl
+  site_simp [rpow]; exact DerivFacts.const_rpow _ _ h
+-- functions with hand-written gradients
+theorem c01_grad_sqrt : SiteOK sqrt (fun x _ => 0 < x 0) := by
+  refine ⟨_, rfl, rfl, ?_⟩
+  intro x y h i hi
+  obtain rfl := lt_one_eq hi rfl
+  site_simp [sqrt]; exact DerivFacts.sqrt _ h
+theorem c01_grad_log : SiteOK log (fun x _ => x 0 ≠ 0) := by
+  refine ⟨_, rfl, rfl, ?_⟩
+  intro x y h i hi
+  obtain rfl := lt_one_eq hi rfl
+  site_simp [log]; exact DerivFacts.log _ h
+theorem c01_grad_exp : SiteOK exp (fun _ _ => True) := by
+  refine ⟨_, rfl, rfl, ?_⟩
+  intro x y _ i hi
+  obtain rfl := lt_one_eq hi rfl
+  site_simp [exp]; exact Real.hasDerivAt_exp _
+theorem c01_grad_sin : SiteOK sin (fun _ _ => True) := by
+  refine ⟨_, rfl, rfl, ?_⟩
+  intro x y _ i hi
+  obtain rfl := lt_one_eq hi rfl
+  site_simp [sin]; exact Real.hasDerivAt_sin _
+theorem c01_grad_cos : SiteOK cos (fun _ _ => True) := by
+  refine ⟨_, rfl, rfl, ?_⟩
+  intro x y _ i hi
+  obtain rfl := lt_one_eq hi rfl
+  site_simp [cos]; exact Real.hasDerivAt_cos _
+theorem c01_grad_tan : SiteOK tan (fun x _ => Real.cos (x 0) ≠ 0) := by
+  refine ⟨_, rfl, rfl, ?_⟩
+  intro x y h i hi
+  obtain rfl := lt_one_eq hi rfl
+  site_simp [tan]; exact DerivFacts.tan _ h
+theorem c01_grad_sinh : SiteOK sinh (fun _ _ => True) := by
+  refine ⟨_, rfl, rfl, ?_⟩
+  intro x y _ i hi
+  obtain rfl := lt_one_eq hi rfl
+  site_simp [sinh]; exact Real.hasDerivAt_sinh _
+theorem c01_grad_cosh : SiteOK cosh (fun _ _ => True) := by
+  refine ⟨_, rfl, rfl, ?_⟩
+  intro x y _ i hi
+  obtain rfl := lt_one_eq hi rfl
+  site_simp [cosh]; exact Real.hasDerivAt_cosh _
+theorem c01_grad_tanh : SiteOK tanh (fun _ _ => True) := by
+  refine ⟨_, rfl, rfl, ?_⟩
+  intro x y _ i hi
+  obtain rfl := lt_one_eq hi rfl
+  site_simp [tanh]; exact DerivFacts.tanh _
+-- the complex product
+theorem c01_grad_cmul : SiteOK cmul (fun _ _ => True) := by
+  refine ⟨_, rfl, rfl, ?_⟩
+  intro x y _ i hi
+  obtain rfl | rfl | rfl | rfl := lt_four_cases hi rfl
+  · site_simp [cmul]; exact (DerivFacts.mul_const _ _).sub_const _
+  · site_simp [cmul]; exact (DerivFacts.const_mul _ _).sub_const _
+  · site_simp [cmul]; exact (DerivFacts.mul_const _ _).const_sub _
+  · site_simp [cmul]; exact (DerivFacts.const_mul _ _).const_sub _
+theorem c01_grad_cmul_2 : SiteOK cmul_2 (fun _ _ => True) := by
+  refine ⟨_, rfl, rfl, ?_⟩
+  intro x y _ i hi
+  obtain rfl | rfl | rfl | rfl := lt_four_cases hi rfl
+  · site_simp [cmul_2]; exact (DerivFacts.mul_const _ _).const_add _
+  · site_simp [cmul_2]; exact (DerivFacts.const_mul _ _).add_const _
+  · site_simp [cmul_2]; exact (DerivFacts.mul_const _ _).add_const _
+  · site_simp [cmul_2]; exact (DerivFacts.const_mul _ _).const_add _
+-- sites that rely on autograd: the derivative autograd is specified to return (`autoGrad`)
+theorem c01_grad_abs : SiteOK abs (fun x _ => x 0 ≠ 0) := by
+  refine ⟨_, rfl, rfl, ?_⟩
+  intro x y h i hi
+  obtain rfl := lt_one_eq hi rfl
+  site_simp [Gen.Grads.abs]; exact DerivFacts.abs _ h
+theorem c01_grad_arcsin : SiteOK arcsin (fun x _ => -1 < x 0 ∧ x 0 < 1) := by
+  refine ⟨_, rfl, rfl, ?_⟩
+  intro x y h i hi
+  obtain rfl := lt_one_eq hi rfl
+  site_simp [arcsin]; exact DerivFacts.arcsin _ h.1 h.2
+theorem c01_grad_arccos : SiteOK arccos (fun x _ => -1 < x 0 ∧ x 0 < 1) := by
+  refine ⟨_, rfl, rfl, ?_⟩
+  intro x y h i hi
+  obtain rfl := lt_one_eq hi rfl
+  site_simp [arccos]; exact DerivFacts.arccos _ h.1 h.2
+theorem c01_grad_arctan : SiteOK arctan (fun _ _ => True) := by
+  refine ⟨_, rfl, rfl, ?_⟩
+  intro x y _ i hi
+  obtain rfl := lt_one_eq hi rfl
+  site_simp [arctan]; exact DerivFacts.arctan _
+theorem c01_grad_arcsinh : SiteOK arcsinh (fun _ _ => True) := by
+  refine ⟨_, rfl, rfl, ?_⟩
+  intro x y _ i hi
+  obtain rfl := lt_one_eq hi rfl
+  site_simp [arcsinh]; exact DerivFacts.arsinh _
+theorem c01_grad_arccosh : SiteOK arccosh (fun x _ => 1 < x 0) := by
+  refine ⟨_, rfl, rfl, ?_⟩
+  intro x y h i hi
+  obtain rfl := lt_one_eq hi rfl
+  site_simp [arccosh]; exact DerivFacts.arcosh _ h
+theorem c01_grad_arctanh : SiteOK arctanh (fun x _ => -1 < x 0 ∧ x 0 < 1) := by
+  refine ⟨_, rfl, rfl, ?_⟩
+  intro x y h i hi
+  obtain rfl := lt_one_eq hi rfl
+  site_simp [arctanh]; exact DerivFacts.artanh _ h.1 h.2
+
+/-- the lambda bodies are the intended functions (so a consistent but wrong func/gradient pair
+    cannot slip through) -/
+theorem c01_func_table (x : Nat → ℝ) (y : ℝ) :
+    add_obs.func.eval x y = x 0 + x 1 ∧ sub_obs.func.eval x y = x 0 - x 1 ∧
+    mul_obs.func.eval x y = x 0 * x 1 ∧ truediv_obs.func.eval x y = x 0 / x 1 ∧
+    rtruediv_obs.func.eval x y = x 0 / x 1 ∧ pow_obs.func.eval x y = x 0 ^ x 1 ∧
+    add_num.func.eval x y = x 0 + y ∧ sub_num.func.eval x y = x 0 - y ∧
+    mul_num.func.eval x y = x 0 * y ∧ truediv_num.func.eval x y = x 0 / y ∧
+    rtruediv_num.func.eval x y = y / x 0 ∧ pow_num.func.eval x y = x 0 ^ y ∧
+    rpow.func.eval x y = y ^ x 0 ∧
+    sqrt.func.eval x y = Real.sqrt (x 0) ∧ log.func.eval x y = Real.log (x 0) ∧
+    exp.func.eval x y = Real.exp (x 0) ∧ sin.func.eval x y = Real.sin (x 0) ∧
+    cos.func.eval x y = Real.cos (x 0) ∧ tan.func.eval x y = Real.tan (x 0) ∧
+    sinh.func.eval x y = Real.sinh (x 0) ∧ cosh.func.eval x y = Real.cosh (x 0) ∧
+    tanh.func.eval x y = Real.tanh (x 0) ∧ abs.func.eval x y = |x 0| ∧
+    arcsin.func.eval x y = Real.arcsin (x 0) ∧ arccos.func.eval x y = Real.arccos (x 0) ∧
+    arctan.func.eval x y = Real.arctan (x 0) ∧ arcsinh.func.eval x y = Real.arsinh (x 0) ∧
+    arccosh.func.eval x y = Real.arcosh (x 0) ∧ arctanh.func.eval x y = Real.artanh (x 0) ∧
+    cmul.func.eval x y = x 0 * x 1 - x 2 * x 3 ∧ cmul_2.func.eval x y = x 2 * x 1 + x 0 * x 3 := by
+  refine ⟨?_, ?_, ?_, ?_, ?_, ?_, ?_, ?_, ?_, ?_, ?_, ?_, ?_, ?_, ?_, ?_, ?_, ?_, ?_, ?_, ?_, ?_, ?_, ?_,
+    ?_, ?_, ?_, ?_, ?_, ?_, ?_⟩ <;> first | rfl | exact RealS.absS_eq _
+
+
+
+section structure_of_result
+
+open Scalar
+
+variable (f : List ℝ → ℝ) (g : List ℝ) (xs : List (Obs ℝ))
+  (covEq : List (List ℝ) → List (List ℝ) → Bool) (o : Obs ℝ)
+
+/-- C01 (value): the central value is f of the central values -/
+theorem c01_value (h : derivedObs f g xs covEq = .ok o) : o.value = f (xs.map (·.value)) := by
+  obtain ⟨allcov, rfl⟩ := C01b.derivedObs_ok h
+  rfl
+
+/-- C01 (replica means): per chain, f of the inputs' replica means, an input that lacks the chain
+    entering with its central value -/
+theorem c01_rvalue (h : derivedObs f g xs covEq = .ok o) :
+    ∀ r ∈ o.reps, r.rvalue = f (xs.map (fun x => match x.rep? r.name with | some q => q.rvalue | none => x.value)) := by
+  obtain ⟨allcov, rfl⟩ := C01b.derivedObs_ok h
+  intro r hr
+  exact (C01b.derivedCore_reps f g xs allcov r hr).2.2
+
+/-- C01 (flag): the reweighted flag is inherited -/
+theorem c01_reweighted (h : derivedObs f g xs covEq = .ok o) : o.reweighted = xs.any (·.reweighted) := by
+  obtain ⟨allcov, rfl⟩ := C01b.derivedObs_ok h
+  rfl
+
+/-- C01 (chains): the result has exactly the chains of the inputs, in sorted order -/
+theorem c01_chains (h : derivedObs f g xs covEq = .ok o) : o.names = newSampleNames xs := by
+  obtain ⟨allcov, rfl⟩ := C01b.derivedObs_ok h
+  simp only [Obs.names, derivedCore, newIdlD, List.map_map]
+  conv_rhs => rw [← List.map_id (newSampleNames xs)]
+  apply List.map_congr_left
+  intro n _
+  simp only [Function.comp]
+  split <;> rfl
+
+/-- C01 (union): every chain of the result is defined on the sorted union of the inputs'
+    configurations of that chain -/
+theorem c01_union (hwf : ∀ x ∈ xs, x.WF = true) (h : derivedObs f g xs covEq = .ok o) :
+    ∀ r ∈ o.reps, r.idl.toList = Spec.unionCfgs xs r.name := by
+  obtain ⟨allcov, rfl⟩ := C01b.derivedObs_ok h
+  intro r hr
+  obtain ⟨_, hidl, _⟩ := C01b.derivedCore_reps f g xs allcov r hr
+  have hs := C01b.idlsOf_strictInc xs hwf r.name
+  have hm := (C01b.mergeIdx_spec _ hs).1
+  have hs' : Idl.strictInc (mergeIdx (C01b.idlsOf xs r.name)).toList = true := by
+    rw [hm]; exact C01b.strictInc_sortedSet _
+  rw [hidl, C01b.normOr_toList _ hs', hm, Spec.unionCfgs, C01b.idlsOf, C01b.flatMap_cfgs]
+
+/- C01 (normal form) — ORIGINAL STATEMENT, FALSE AS WRITTEN (see `c01_range_normal_false` below and
+   REPORT.md):
+
+/-- C01 (normal form): a chain of the result is held as a range exactly when its configurations
+    are equally spaced (and there are at least two) -/
+theorem c01_range_normal (hwf : ∀ x ∈ xs, x.WF = true) (h : derivedObs f g xs covEq = .ok o) :
+    ∀ r ∈ o.reps, (r.idl.isRange = true ↔ equallySpaced r.idl.toList = true) := by
+  sorry
+
+   `Obs.WF` admits a chain held as a `range` with fewer than two configurations (e.g.
+   `range 0 1 1`); `mergeIdx` hands such an `idl` through unchanged when all inputs agree, and
+   `Idl.normalise` leaves every range alone, so the result holds a range whose configuration list
+   is not `equallySpaced`. -/
+
+/-- the counterexample: one input with one chain `"a"` held as `range(0, 1, 1)` -/
+noncomputable def c01_range_normal_cex : Obs ℝ :=
+  { value := 0, reps := [{ name := "a", idl := .range 0 1 1, deltas := [0], rvalue := 0 }], covs := [] }
+
+theorem c01_range_normal_cex_wf : c01_range_normal_cex.WF = true := by
+  simp [c01_range_normal_cex, Obs.WF, Obs.names, Obs.covNames, strictSortedStr, Idl.strictInc,
+    Idl.toList, Idl.len]
+
+theorem c01_range_normal_cex_ok :
+    derivedObs (fun _ => 0) [1] [c01_range_normal_cex] (fun _ _ => true)
+      = .ok (derivedCore (fun _ => 0) [1] [c01_range_normal_cex] []) := by
+  simp [derivedObs, c01_range_normal_cex, collectCov, Obs.covNames, Py.sortedSetStr, Py.sortBy,
+    Py.dedupSorted]
+
+/-- the original statement of `c01_range_normal` (universally closed) is refuted -/
+theorem c01_range_normal_false :
+    ¬ ∀ (f : List ℝ → ℝ) (g : List ℝ) (xs : List (Obs ℝ))
+        (covEq : List (List ℝ) → List (List ℝ) → Bool) (o : Obs ℝ),
+        (∀ x ∈ xs, x.WF = true) → derivedObs f g xs covEq = .ok o →
+        ∀ r ∈ o.reps, (r.idl.isRange = true ↔ equallySpaced r.idl.toList = true) := by
+  intro H
+  have hwf : ∀ x ∈ [c01_range_normal_cex], x.WF = true := by
+    intro x hx
+    rw [List.mem_singleton.1 hx]
+    exact c01_range_normal_cex_wf
+  have H' := H _ _ _ _ _ hwf c01_range_normal_cex_ok
+  have hnames := c01_chains _ _ _ _ _ c01_range_normal_cex_ok
+  have hn : newSampleNames [c01_range_normal_cex] = ["a"] := by
+    simp [newSampleNames, c01_range_normal_cex, Obs.names, Obs.covNames, Py.sortedSetStr, Py.sortBy,
+      Py.insertSorted, Py.dedupSorted]
+  rw [hn, Obs.names] at hnames
+  generalize hreps : (derivedCore (fun _ => (0 : ℝ)) [1] [c01_range_normal_cex] []).reps = reps
+    at hnames H'
+  match reps, hnames with
+  | [r], hnames =>
+    have hname : r.name = "a" := by simpa using hnames
+    have hr : r ∈ (derivedCore (fun _ => (0 : ℝ)) [1] [c01_range_normal_cex] []).reps := by
+      rw [hreps]; simp
+    have hidl := (C01b.derivedCore_reps _ _ _ _ r hr).2.1
+    have hval : C01b.normOr (mergeIdx (C01b.idlsOf [c01_range_normal_cex] "a")) = .range 0 1 1 := by
+      simp [C01b.idlsOf, c01_range_normal_cex, Obs.rep?, mergeIdx, C01b.normOr_range]
+    rw [hname, hval] at hidl
+    have := H' r (by simp)
+    rw [hidl] at this
+    simp [Idl.isRange, Idl.toList, equallySpaced, Idl.diffs] at this
+
+/-- C01 (normal form), corrected: the equivalence holds when no input holds a chain of fewer than
+    two configurations as a `range` (the constructor `mkObs` / `Obs.__init__` guarantees at least
+    five configurations per chain, but `Obs.WF` does not record it) -/
+theorem c01_range_normal_corrected (hwf : ∀ x ∈ xs, x.WF = true)
+    (hlen2 : ∀ x ∈ xs, ∀ q ∈ x.reps, q.idl.isRange = true → 2 ≤ q.idl.len)
+    (h : derivedObs f g xs covEq = .ok o) :
+    ∀ r ∈ o.reps, (r.idl.isRange = true ↔ equallySpaced r.idl.toList = true) := by
+  obtain ⟨allcov, rfl⟩ := C01b.derivedObs_ok h
+  intro r hr
+  obtain ⟨_, hidl, _⟩ := C01b.derivedCore_reps f g xs allcov r hr
+  have hs := C01b.idlsOf_strictInc xs hwf r.name
+  have spec := C01b.mergeIdx_spec _ hs
+  have hs' : Idl.strictInc (mergeIdx (C01b.idlsOf xs r.name)).toList = true := by
+    rw [spec.1]; exact C01b.strictInc_sortedSet _
+  rw [hidl]
+  apply C01b.normOr_isRange_iff _ hs'
+  intro s n st heq
+  rcases spec.2 with hmem | hge
+  · obtain ⟨x, hx, q, hq, hqi⟩ := C01b.idlsOf_mem xs r.name _ hmem
+    have := hlen2 x hx q hq (by rw [hqi, heq]; rfl)
+    rw [hqi, heq] at this
+    simpa [Idl.len, C01b.length_toList_range] using this
+  · exact hge s n st heq
+
+/-- the direction of `c01_range_normal` that holds without the extra hypothesis: equally spaced
+    configurations are always held as a range -/
+theorem c01_range_normal_mpr (hwf : ∀ x ∈ xs, x.WF = true) (h : derivedObs f g xs covEq = .ok o) :
+    ∀ r ∈ o.reps, equallySpaced r.idl.toList = true → r.idl.isRange = true := by
+  obtain ⟨allcov, rfl⟩ := C01b.derivedObs_ok h
+  intro r hr
+  obtain ⟨_, hidl, _⟩ := C01b.derivedCore_reps f g xs allcov r hr
+  have hs := C01b.idlsOf_strictInc xs hwf r.name
+  have spec := C01b.mergeIdx_spec _ hs
+  have hs' : Idl.strictInc (mergeIdx (C01b.idlsOf xs r.name)).toList = true := by
+    rw [spec.1]; exact C01b.strictInc_sortedSet _
+  rw [hidl]
+  generalize mergeIdx (C01b.idlsOf xs r.name) = i at hs'
+  cases i with
+  | range s n st => intro _; rw [C01b.normOr_range]; rfl
+  | list l =>
+    rw [(C01b.normOr_list l hs').1]
+    exact (C01b.normOr_list l hs').2.2
+
+/-- C01 (covariance inputs): gradients with respect to external inputs combine by the chain rule -/
+theorem c01_cov_chain (hlen : g.length = xs.length)
+    (hgrad : ∀ x ∈ xs, ∀ c ∈ x.covs, ∀ x' ∈ xs, ∀ c' ∈ x'.covs, c.name = c'.name → c.grad.length = c'.grad.length)
+    (h : derivedObs f g xs covEq = .ok o) :
+    ∀ c ∈ o.covs, ∀ k, k < c.grad.length → c.grad.getD k 0 = Spec.covGrad g xs c.name k := by
+  obtain ⟨allcov, rfl⟩ := C01b.derivedObs_ok h
+  intro c hc k _
+  obtain ⟨p, ps, hparts, hgr⟩ := C01b.derivedCore_covs f g xs allcov c hc
+  have hl := C01b.partsOf_lengths g xs c.name hgrad
+  rw [C01b.covGrad_eq, hparts, hgr, C01b.foldl_addLists ps p
+    (fun q hq => hl q (by rw [hparts]; simp [hq]) p (by rw [hparts]; simp)) k]
+  simp
+
+
+end structure_of_result
 
 end PV
